@@ -42,7 +42,8 @@ class OsuToSM(ConvertBase):
         sms.background = osu.background_file_name
         sms.sample_start = osu.preview_time
         sms.sample_length = 10
-        sms.offset = 0.0
+        # The file offset is the time of beat 0, the first timing point
+        sms.offset = osu.bpms.first_offset() if len(osu.bpms) else 0.0
 
         sm.chart_type = SMMapChartTypes.get_type(osu.stack().column.max() + 1)
 
